@@ -2,7 +2,7 @@
    ExtrOcamlBasic only: bool, option, unit, list, prod, sumbool, sumor map to OCaml's; N/positive/nat
    stay the extracted inductive types. *)
 From Coq Require Import Extraction ExtrOcamlBasic.
-From BS Require Import Base CsvSpec CsvModel.
+From BS Require Import Base CsvSpec CsvModel CsvEncodings.
 Extraction Language OCaml.
-Extraction "../ml/gen/csv_model.ml" csv_save writer_run with_keys csv_load csv_load_stream chunk_size utf8_detected
+Extraction "../ml/gen/csv_model.ml" csv_save writer_run with_keys csv_load csv_load_stream csv_load_encoded chunk_size utf8_detected
   validate_separator rfc_parse render select.
